@@ -61,6 +61,8 @@ type Obligation struct {
 	ExpectSat bool   // vacuity cover query: must be SAT
 	Relaxed   bool   // counterexample search without quantified assumptions
 	Consistency bool // full-context vacuity guard: must NOT be unsat
+	Blk       int    // block of the function under verification the obligation arises in (-1: whole function)
+	Parts     []*Obligation // an obligation that is the conjunction of per-return-site parts
 }
 
 // Ctx is the verification context of one top-level function (or lemma).
@@ -93,16 +95,20 @@ type Ctx struct {
 	axiomsUsed []string
 	frontier   map[string]string // heap version -> allocation frontier when it was created
 	frameOn      bool
+	LogBlk       []int // originating block (of the function under verification) of each log entry; -1 = unconditional
+	curTopBlock  int
+	ancestors    map[int]map[int]bool // block -> blocks from which it is reachable (incl. itself)
 	asciiLits    []string
 	utf8Declared bool
 	lastPi, lastPiInv string
 	frameAllowed map[string][]string
 	frameAllowedCond map[string][][2]string
+	frameAllowedQ    map[string][]havocTarget // quantified location sets of the own assigns clause
 	frameWhole   map[string]bool
 }
 
 func NewCtx(w *World, fn *ssa.Function, mode Mode) *Ctx {
-	return &Ctx{W: w, Fn: fn, Mode: mode, declared: map[string]bool{}, heapSort: map[string]string{}, heap0: map[string]string{},
+	return &Ctx{curTopBlock: -1, W: w, Fn: fn, Mode: mode, declared: map[string]bool{}, heapSort: map[string]string{}, heap0: map[string]string{},
 		litStr: map[string]string{}, typeIDs: map[string]int{}, oblNames: map[string]int{}, usedContracts: map[string]bool{}, usedUF: map[string]bool{}, frontier: map[string]string{}}
 }
 
@@ -134,6 +140,9 @@ func (c *Ctx) assert(t string) {
 		return
 	}
 	c.Log = append(c.Log, "(assert "+t+")")
+	for len(c.LogBlk) < len(c.Log) {
+		c.LogBlk = append(c.LogBlk, c.curTopBlock)
+	}
 }
 
 // assume asserts t under guard g.
